@@ -11,15 +11,16 @@ from harness.pyx import drift
 from harness.props.c07 import bits2f, cvec
 
 ID = "C08"
-LEAN_TARGETS = ["ChmpyVerif.Props.C08"]
+LEAN_TARGETS = ["ChmpyVerif.Props.C08", "ChmpyVerif.Props.C08Gen"]
 T = "ChmpyVerif.Props.C08."
-THEOREMS = [T + n for n in ("N_block_local", "N_unitary_invariant", "power_unitary_invariant", "P_zrot_invariant", "invariant_count")]
+THEOREMS = [T + n for n in ("N_block_local", "N_unitary_invariant", "power_unitary_invariant", "P_zrot_invariant", "invariant_count", "P_rotation_invariant")]
 TRUSTED = [
     "hand model Model/SHT.lean of make_N_invariants, p_invariants_c (triple enumeration, parity split, cube roots), the Racah formula of clebsch() "
     "and power_spectrum, executed in Float by the driver",
     "H_rot: a rotation acts on the degree-l coefficients by a unitary (Wigner D) matrix and does not mix degrees — hypothesis of the N / power theorems",
-    "H_cg: the Clebsch-Gordan coefficients intertwine D^{l1} ⊗ D^{l2} with D^{l} for a GENERAL rotation — not proved; only rotations about z are "
-    "proved for P; general rotations are covered by the oracle (the code's clebsch() is compared with exact rational-arithmetic Racah values)",
+    "H_cg: the Clebsch-Gordan coefficients intertwine D^{l1} ⊗ D^{l2} with D^{l} — a hypothesis of P_rotation_invariant (which proves that unitarity "
+    "and this intertwining are ALL that the bispectrum needs); rotations about z are proved without it; the code's clebsch() is compared with exact "
+    "rational-arithmetic Racah values and general rotations are exercised by the oracle",
     "scipy.special.sph_harm_y as the independent evaluator of Y_lm used to build rotated functions in the oracle",
     "the prebuilt _invariants extension is a faithful compilation of the .pyx reconstructed from its .c (drift guard)",
 ]
@@ -29,9 +30,10 @@ RULE = ("L = 0..12: correspondence of N invariants, P invariants, the triple enu
 MANIFEST = {
     "text": ("Proof (partial). Proved over any commutative star ring: each N invariant reads only the 2l+1 coefficients at [l², (l+1)²) (locality); any unitary "
              "transformation of a degree's coefficients leaves Σ|c|² — hence N and the power spectrum — unchanged; every P (bispectrum) term is unchanged by a "
-             "rotation about z (phases cancel because m1 + m2 = m); number/order of the P invariants for every L <= 12 (the property's range) kernel-evaluated "
-             "from the modelled loop nest. Not proved: that rotations act block-unitarily (Wigner D; H_rot) and the CG intertwining for general rotations "
-             "(H_cg) — both exercised by the oracle on the real code."),
+             "rotation about z (phases cancel because m1 + m2 = m), and by ANY transformation that acts unitarily on each degree and is intertwined by "
+             "the coupling coefficients (P_rotation_invariant: the algebra needs nothing else); number/order of the P invariants for every L <= 12 (the property's range) kernel-evaluated "
+             "from the modelled loop nest. Not proved: that rotations act block-unitarily (Wigner D; H_rot) and that the tabulated Clebsch-Gordan "
+             "coefficients have the intertwining property (H_cg) — both exercised by the oracle on the real code."),
     "note": "Trusted: Lean kernel + Mathlib; H_rot, H_cg as hypotheses; hand model tied by correspondence; compiled extension = its .pyx.",
     "technique": "Lean 4 proof (ring algebra for locality/unitary/z-rotation invariance, kernel-evaluated enumeration) + correspondence + rotation oracle",
 }
